@@ -299,6 +299,35 @@ def r11_4(prog, tab):
             else:
                 r.bad(f, key, "%s can run for one member before %s has been applied to all members (same loop, or no dominating "
                               "loop): %s" % (row["after"], row["before"], row["reason"]), ae["line"])
+    # in-function sequences: after `first` ran, `then` runs on every path to a return
+    from .c15 import must_pass
+    for row in tab.get("pass_sequences", []):
+        f = prog.func(row["function"])
+        if f is None:
+            raise AnalysisBroken("%s not found" % row["function"])
+        firsts = [(b, i, e) for b, i, e in f.calls() if e.get("callee") == row["first"]]
+        if not firsts:
+            raise AnalysisBroken("%s: call of %s not found" % (row["function"], row["first"]))
+        for b, i, e in firsts:
+            key = "%s;%s" % (row["first"], row["then"])
+
+            def isthen(y, row=row):
+                return y["k"] == "call" and y.get("callee") == row["then"]
+            bad = None
+            for rb, ri, re_ in f.returns():
+                if rb.id == b.id and ri > i:
+                    okp = any(isthen(y) for y in b.ev[i + 1:ri])
+                elif rb.id not in f.reachable_from([b.id]):
+                    continue
+                else:
+                    okp = any(isthen(y) for y in b.ev[i + 1:]) or all(must_pass(f, s_, rb.id, ri, isthen) for s_ in b.succs())
+                if not okp:
+                    bad = re_
+                    break
+            if bad is None:
+                r.ok(f, key, "%s runs after %s on every path to a return" % (row["then"], row["first"]), e["line"])
+            else:
+                r.bad(f, key, "after %s the function can return (line %s) without running %s: %s" % (row["first"], bad.get("line"), row["then"], row["reason"]), e["line"])
     return r
 
 
